@@ -25,14 +25,14 @@ CHECKS = {
  "C04": dict(
    engine="E2-fleet",
    category="exploration",
-   text="Seeded histories (5-25 operations) over 2-4 real child interpreters with distinct PYTHONHASHSEED / heap / allocation history (ASLR off): build, independent rebuild, reflective single-field mutation, mapping reorder, API round trip, hash forcing, pickle, unpickle in the same / another / a crashed-and-restarted interpreter, deepcopy. After the steps of every history each interpreter checks, over all pairs of its live objects: == agrees with the reflective structure walker; == implies equal hash and set/dict membership; symmetry, reflexivity, != consistency, sampled transitivity; no _hash_value on freshly unpickled/copied nodes; hashing adds no picklable state; the orchestrator checks that the canonical form survives every cross-process round trip. Sampling: evidence for the sampled histories, node kinds and (node kind, field) pairs it lists, not a proof.",
+   text="Seeded histories (5-25 operations) over 2-4 real child interpreters with distinct PYTHONHASHSEED / heap / allocation history (ASLR off): build, independent rebuild, reflective single-field mutation (fields, wrapped data, numpy scalar constants, operations inside scalar expressions, callee kernels of loopy units), per-graph field sweeps (one mutant per (node kind, field) signature present), mapping reorder, API round trip and API derivation from objects that already carry caches, hash forcing, loopy code generation, pickle, unpickle in the same / another / a crashed-and-restarted interpreter, deepcopy, junk allocation, and CHURN (build, compare, key and discard transient graphs with new wrapped data every round, so that addresses are reused while earlier state is still around). A fifth of the interpreters run python -O. After the steps of every history each interpreter checks, over all pairs of its live objects: == agrees with the reflective structure walker; == implies equal hash and set/dict membership; symmetry, reflexivity, != consistency, sampled transitivity; no _hash_value on freshly unpickled/copied nodes; hashing adds no picklable state; the orchestrator checks that the canonical form survives every cross-process round trip. Sampling: evidence for the sampled histories, node kinds and (node kind, field) pairs it lists, not a proof.",
    design_ref="DESIGN.md sections 3, 4, 5 (C04)",
    note="Trusted: the reflective walker's canonical form as the definition of 'same structure' (dataclass fields except non_equality_tags; DataWrapper by identity); setarch -R + PYTHONHASHSEED + heap prelude give distinct, reproducible interpreters; the single-field half (orig vs mutant) has no history dimension and is reported under its own counters.",
    technique="deterministic simulation of an interpreter population: seeded operation histories with crash/restart and pickle transfer, congruence oracle after each history, minimised replay files"),
  "C08": dict(
    engine="E1-SimMPI",
    category="exploration",
-   text="Seeded search over (multi-rank program, message/part schedule, legal MPI perturbation) triples: every run executes the real find_distributed_partition / verify / number_distributed_tags / execute_distributed_partition on 1-4 simulated ranks under a scheduler that owns every interleaving (delivery order and delay, Waitsome subsets and order, eager vs rendezvous sends with late buffer reads, poisoned receive buffers, stalled ranks, PCT priorities, back-to-back re-execution). Invariants during the run (no exception, deadlock, livelock, poison read, size mismatch) and over the history (outputs equal the recipe-level NumPy evaluation of the global data flow exactly; exactly-once message accounting; bounded liveness). About 2500 runs per quick run use PROCESS ACTORS (one child interpreter per rank with its own hash seed/heap, a proxy thread per rank inside the same kernel), because ranks exchange pickles. Plus a bounded exhaustive stratum: for small programs (<=3 ranks, <=3 messages) ALL schedules (delivery / send-completion / wake-up orders, every Waitsome subset, eager and rendezvous) are enumerated depth-first. Sampling, not proof, beyond that stratum: a clean batch is evidence for the sampled space (ranks<=4, comm ops<=6).",
+   text="Seeded search over (multi-rank program, message/part schedule, legal MPI perturbation) triples: every run executes the real find_distributed_partition / verify / number_distributed_tags / execute_distributed_partition on 1-4 simulated ranks under a scheduler that owns every interleaving (delivery order and delay, Waitsome subsets and order, eager vs rendezvous sends with late buffer reads, poisoned receive buffers, stalled ranks, PCT priorities, back-to-back re-execution). Invariants during the run (no exception, deadlock, livelock, poison read, size mismatch) and over the history (outputs equal the recipe-level NumPy evaluation of the global data flow exactly; exactly-once message accounting; bounded liveness). About 2500 runs per quick run use PROCESS ACTORS (one child interpreter per rank with its own hash seed/heap, a proxy thread per rank inside the same kernel), because ranks exchange pickles. The transport carries memory images and rejects non-contiguous buffers as mpi4py does; user inputs are sometimes Fortran-ordered or come with unused extras; programs include calls to hand-written loopy kernels; every third process-actor group runs python -O. Plus a bounded exhaustive stratum: for small programs (<=3 ranks, <=3 messages) ALL schedules (delivery / send-completion / wake-up orders, every Waitsome subset, eager and rendezvous) are enumerated depth-first. Sampling, not proof, beyond that stratum: a clean batch is evidence for the sampled space (ranks<=4, comm ops<=6).",
    design_ref="DESIGN.md sections 2, 4, 5 (C08), 10",
    note="Trusted: the SimMPI kernel implements MPI matching/completion semantics for the subset pytato uses (Isend/Irecv/Waitsome/Wait, pickle-based collectives); the recipe-level NumPy oracle and RefEval (cross-checked against each other on 1 run in 8); numerical execution of a part is RefEval on the part's expressions, not the compiled kernel (generate_loopy is run for its exceptions on sampled runs, with a communication-free control compile to tell partition-induced failures from code generation's own; on a small sample the real kernels are also executed through loopy's C target + gcc next to the stub, as evidence only).",
    technique="deterministic simulation: seeded schedule + perturbation search on a simulated MPI (plus exhaustive schedule enumeration for small instances), reference-model oracle, minimised replay files"),
@@ -46,21 +46,21 @@ CHECKS = {
  "C10": dict(
    engine="E1-SimMPI",
    category="fault_enumeration",
-   text="For every sampled valid multi-rank program: the fault-free run, EVERY single communication fault (drop / duplicate / retag / redirect / self on the send and on the receive side, a matched self-loop, a dependency closing a cross-rank cycle) at EVERY live communication operation, and seeded fault pairs. All ranks run find_distributed_partition + verify_distributed_partition on SimMPI under a seeded schedule; per rank the outcome is returned / raised / blocked-forever. A share of the runs uses PROCESS ACTORS (every rank in its own child interpreter with its own hash seed and heap; about 2000 runs per quick run), because the ranks exchange pickles whose meaning must not depend on the interpreter that made them. The expectation comes from an independent communication model of the built graphs, so cancelling faults must succeed and a correct program must never be rejected.",
+   text="For every sampled valid multi-rank program: the fault-free run, EVERY single communication fault (drop / duplicate / retag / redirect / self on the send and on the receive side, a matched self-loop, a dependency closing a cross-rank cycle) at EVERY live communication operation, and seeded fault pairs. All ranks run find_distributed_partition + verify_distributed_partition on SimMPI under a seeded schedule; per rank the outcome is returned / raised / blocked-forever. A share of the runs uses PROCESS ACTORS (every rank in its own child interpreter with its own hash seed and heap; about 2000 runs per quick run), because the ranks exchange pickles whose meaning must not depend on the interpreter that made them. The expectation comes from an independent communication model of the built graphs, so cancelling faults must succeed and a correct program must never be rejected. PARTITION-LEVEL faults in addition: the partition find_distributed_partition returned for a valid program is tampered with on one rank (a receive posted in another part, an extra ordering edge), then all ranks run verify -> number -> execute; a partition whose global part graph the reference model finds cyclic must not pass verify_distributed_partition on every rank and then fail to execute. Every third process-actor group runs python -O and is held to the safety half only (no partition for an ill-formed program, no valid program rejected, no hang).",
    design_ref="DESIGN.md sections 4.2, 4.3, 5 (C10)",
    note="Trusted: the communication model as definition of well-formed; the diagnostic family; the rule 'at least one affected rank raises a diagnostic, nobody raises anything else, not everybody returns; a cycle is raised on every rank'. Programs are sampled; faults per program are enumerated.",
    technique="deterministic simulation with fault injection: enumerated program-level communication faults executed on a simulated MPI, per-rank protocol outcome vs an independent model"),
  "C17": dict(
    engine="E2-fleet",
    category="exploration",
-   text="The 'system' is the interpreter population: sessions of 3-4 real child interpreters (ASLR off, distinct PYTHONHASHSEED incl. 0, 1 and large values, seeded heap prelude before imports, seeded junk-graph allocation history, per-interpreter batch order) each produce, twice at different points of their life, text records for a batch of single-rank programs (loopy kernel key + canonical dump, OpenCL and C source, bound-argument order, generated Python source) and multi-rank programs (per simulated rank: part structure, names, receive/send order, canonical forms of part expressions, overall output order, integers from number_distributed_tags, keys of the part kernels; SimMPI seed equal across interpreters). Oracle: byte equality across all interpreters and both productions.",
+   text="The 'system' is the interpreter population: sessions of 3-4 real child interpreters (ASLR off, distinct PYTHONHASHSEED - half edge values (0, 1, 2**31-1, 2**32-1), half drawn afresh per session -, every third session under python -O, seeded heap prelude before imports, seeded junk-graph allocation history, per-interpreter batch order) each produce, twice at different points of their life, text records for a batch of single-rank programs (loopy kernel key + canonical dump, OpenCL and C source, bound-argument order, generated Python source) and multi-rank programs (per simulated rank: part structure, names, receive/send order, canonical forms of part expressions, overall output order, integers from number_distributed_tags, keys of the part kernels; SimMPI seed equal across interpreters), plus a 'world' comparison in which every rank of a program lives in its own interpreter. Oracle: byte equality across all interpreters and both productions.",
    design_ref="DESIGN.md sections 3, 5 (C17)",
    note="Trusted: the canonical printer (sets sorted, ordered results in order); loopy's code generation is inside the compared pipeline; distinct fingerprints and differing plain-set iteration orders are measured to show that the fleet members do differ.",
    technique="deterministic simulation of an interpreter population: seeded hash seeds / heaps / allocation histories, byte-for-byte comparison of emitted records, replay by re-launching the two interpreters"),
  "C18": dict(
    engine="E2-fleet",
    category="exploration",
-   text="Same histories as C04 with the PytatoKeyBuilder key observed per object: keys of graphs with the same canonical form must agree across interpreters with different hash seeds, across independent rebuilds, before/after pickling (including blobs unpickled in a crashed-and-restarted interpreter), whether or not hash() was forced first, and when recomputed by a fresh key builder; keys of graphs whose canonical forms differ (all pairs of live objects, including orig-vs-single-field-mutant pairs and wrapped data differing in one element / in dtype with identical bytes / in shape with identical bytes) must differ.",
+   text="Same histories as C04 with the PytatoKeyBuilder key observed per object: keys of graphs with the same canonical form must agree across interpreters with different hash seeds, across independent rebuilds, before/after pickling (including blobs unpickled in a crashed-and-restarted interpreter), whether or not hash() was forced first, when recomputed by a fresh key builder, and - for transient graphs of churn rounds - with a peer interpreter that builds the graph from scratch (key <-> content stays a bijection over all rounds); keys of graphs whose canonical forms differ (all pairs of live objects, including orig-vs-single-field-mutant pairs and wrapped data differing in one element / in dtype with identical bytes / in shape with identical bytes / in byte order / in memory layout, numpy scalars of another dtype with identical bytes, another operation in a scalar expression, another callee kernel in a loopy unit) must differ. Wrapped data range from 0 to 1 MiB (bulk recipes).",
    design_ref="DESIGN.md section 5 (C18)",
    note="Trusted: the reflective walker in content mode as definition of 'structurally equal'; scalar-type leniency (2.0 vs numpy.float64(2.0)) in the must-differ direction only. The injectivity half over generated pairs has no history dimension and is reported under its own counters.",
    technique="deterministic simulation of an interpreter population: seeded histories with pickle transfer and restarts, key agreement/injectivity oracle, minimised replay files"),
